@@ -244,7 +244,7 @@ def c09(run):
 
 
 BYZ = ["prefix", "prefixStall", "notfound", "empty", "shifted", "dup", "reordered", "forged", "forgedFirst", "wrongchain", "invalid",
-       "malformed", "unknownStatus", "tooMany", "disconnect", "decodePanic"]
+       "malformed", "unknownStatus", "tooMany", "disconnect", "decodePanic", "forkMid", "timeBack"]
 
 
 def exchange_design(run, combos, byz):
@@ -284,6 +284,9 @@ def c05(run):
         amount, chunk = rnd.choice(combos + [(12, 5), (20, 64)])
         peers = [{"script": [rnd.choice(BYZ + ["serve", "serve"]) for _ in range(rnd.randint(0, 3))]} for _ in range(rnd.randint(1, 3))]
         cases.append({"from": rnd.randint(1, 3), "amount": amount, "chunk": chunk, "mode": "byz", "peers": peers})
+    for c in cases:       # replay-only dimension: a third of the clients have metrics enabled
+        if rnd.random() < 0.34:
+            c["metrics"] = True
     for i, c in enumerate(cases):
         c["id"] = i
         c["from_tlc"] = False
@@ -366,6 +369,9 @@ def c18(run):
         peers.insert(rnd.randint(0, len(peers)), {"script": []})
         cases.append({"from": 1, "amount": amount, "chunk": chunk, "mode": "honest", "peers": peers,
                       "soloSecond": rnd.random() < 0.5})
+    for c in cases:       # replay-only dimension: a third of the clients have metrics enabled
+        if rnd.random() < 0.34:
+            c["metrics"] = True
     for i, c in enumerate(cases):
         c["id"] = i
         c["from_tlc"] = False
